@@ -104,15 +104,16 @@ def run_routes(exe, rt, src, lib, q, d, name="p", routes=("interp", "ao", "c"), 
                     "-Cargs=-Wconfig=%s/aldor/src/aldor.conf -I%s" % (C.RB, C.eff_src()), "-fc", "-fx=%s.exe" % name]
         rc, out, err = C.run(cmd + [name + ".as"], cwd=dd, env=env, timeout=2 * timeout)
         built = {"rc": rc, "out": out, "err": err}
+        bad_status = "timeout" if rc == 124 else "build-error"
         if "ao" in routes:
-            if os.path.exists(os.path.join(dd, name + ".ao")):
+            if rc != 124 and os.path.exists(os.path.join(dd, name + ".ao")):
                 do = os.path.join(d, "o")
                 os.makedirs(do, exist_ok=True)
                 shutil.copy(os.path.join(dd, name + ".ao"), do)
                 rc2, out2, err2 = C.run(base_args(exe, lib) + [l, "-ginterp", name + ".ao"], cwd=do, env=env, timeout=timeout)
                 res["ao"] = {"rc": rc2, "status": cls(rc2), "out": out2, "err": err2}
             else:
-                res["ao"] = {"rc": rc, "status": "build-error", "out": out, "err": err}
+                res["ao"] = {"rc": rc, "status": bad_status, "out": out, "err": err}
         if "c" in routes:
             if rc == 0 and os.path.exists(os.path.join(dd, name + ".exe")):
                 dc = os.path.join(d, "c")
@@ -120,7 +121,7 @@ def run_routes(exe, rt, src, lib, q, d, name="p", routes=("interp", "ao", "c"), 
                 rc2, out2, err2 = C.run([os.path.join(dd, name + ".exe")], cwd=dc, env=env, timeout=timeout)
                 res["c"] = {"rc": rc2, "status": cls(rc2), "out": out2, "err": err2}
             else:
-                res["c"] = {"rc": rc, "status": "build-error", "out": out, "err": err}
+                res["c"] = {"rc": rc, "status": bad_status, "out": out, "err": err}
         res["_build"] = built
     return res
 
@@ -371,7 +372,9 @@ def corpus_items():
 
 # ------------------------------------------------------------------ generate + proof
 
-def generate(exe):
+def generate(exe=None):
+    """(Re)write coq/Gen/ExitClasses.v from the current sources (also called by tools/setup.py)."""
+    exe = exe or C.build_compiler()
     d = C.scratch("c03gen")
     with open(d + "/m.as", "w") as f:
         f.write('#include "aldor"\n#include "aldorio"\nstdout << "x" << newline;\n')
@@ -404,9 +407,8 @@ def run(rep, tier):
     exe = C.build_compiler()
     rt = C.build_runtime()
     known_bad, trace_known = generate(exe)
-    proved = C.proof_stage(rep, ID, ["Props/Properties_C03.vo", "Routes/Extract.vo"], "Props/Properties_C03.v",
-                           None, defer=True)
-    t_proof = time.time() - t0
+    from props import c04                      # the builtin tables the restated C04 theorem is about: regenerated too
+    c04.generate()
     base = C.scratch("c03")
     rng = C.rng("c03")
     quick = tier == "quick"
@@ -414,6 +416,27 @@ def run(rep, tier):
     feat = collections.Counter()
     viol = {"n": 0}
     trace_seen = []
+
+    def searcher(log):
+        """An obligation about the exit-path tables no longer closes: run programs that END in every modelled way - the
+        halt codes named by failed rows first - through the three routes at every level and report one on which stdout
+        or the status class differ (the property's own statement)."""
+        codes = sorted({int(x) for x in re.findall(r'ROW-FAILED halt code"?\s*\(?(-?\d+)', log)})
+        stats["rows_failed_in_proof"] = len(codes)
+        sweep = [("normal", None), ("throw", None), ("assert", None), ("never", None), ("union", None), ("error", None)]
+        sweep += [("halt", c) for c in (codes + [c for c in HALT_CODES if c not in codes])]
+        jobs = []
+        for k, c in sweep:
+            p = ending_program(C.rng("c03-searcher-%s-%s" % (k, c)), k, "top", c)
+            for q in ([1] if quick else LEVELS):
+                jobs.append(("search-%s-%s" % (k, c), p, "aldor", q))
+        for jb, res, v, det in job_runner(jobs):
+            if v == "disagree":
+                p = jb[1]
+                report("ending program (%s%s) at -Q%d: %s" % (p["kind"], ", code %s" % p["halt"] if p["halt"] is not None else "", jb[3], det),
+                       {"how_to_replay": "./check C03 --replay <this file>", "src": p["src"], "level": jb[3], "lib": "aldor",
+                        "oracle": pick_oracle(p, jb[3]), "observed": brief(res)}, key=_end_key(p),
+                       group="search:%s:%s" % (p["kind"], p["halt"]))
 
     seen_groups = collections.Counter()
 
@@ -440,6 +463,9 @@ def run(rep, tier):
                 shutil.rmtree(d, ignore_errors=True)
         with concurrent.futures.ThreadPoolExecutor(C.NCPU) as ex:
             return list(ex.map(one, jobs))
+
+    proved = C.proof_stage(rep, ID, ["Props/Properties_C03.vo", "Routes/Extract.vo"], "Props/Properties_C03.v", searcher)
+    t_proof = time.time() - t0
 
     # ---- 1. correspondence of the ending model with the real binaries -------------------------------
     drv = None
@@ -500,9 +526,9 @@ def run(rep, tier):
     stats["model_predictions_checked"] = n_model
 
     # ---- 2. the programs ----------------------------------------------------------------------------
-    n_mini = 24 if quick else 400
-    n_end = 26 if quick else 300
-    n_corp = 14 if quick else None
+    n_mini = 18 if quick else 400
+    n_end = 20 if quick else 300
+    n_corp = 10 if quick else None
     sizes = [6, 10, 14, 20] if quick else [6, 10, 14, 20, 30, 45]
     mini.build(rebuild_coq=False)
     mjobs = [(rng.randrange(1, 2 ** 40), rng.choice(sizes)) for _ in range(n_mini)]
@@ -513,6 +539,14 @@ def run(rep, tier):
     ends = [ending_program(rng, KINDS[i % len(KINDS)], CONTEXTS[i % len(CONTEXTS)]) for i in range(n_end)]
     for p in ends:
         feat.update(p["features"])
+    from props import c12                      # integer/list/record/closure programs with a Python oracle (values inside 32 bits)
+    n_hand = 8 if quick else 150
+    hands = []
+    for i in range(n_hand):
+        hp = c12.family_program(rng, rng.randrange(4, 16 if quick else 30))
+        hp.update(kind="hand", ctx="", halt=None, levels=[q for q in LEVELS if not ("record-alias" in hp["features"] and q > 3)])
+        hands.append(hp)
+        feat.update(hp["features"])
     corp = corpus_programs()
     n_corpus_total = len(corp)
     if n_corp is not None:
@@ -530,6 +564,9 @@ def run(rep, tier):
     for i, p in enumerate(ends):
         for q in LEVELS:
             jobs.append(("end-%d-%s" % (i, p["kind"]), p, "aldor", q))
+    for i, p in enumerate(hands):
+        for q in p["levels"]:
+            jobs.append(("hand-%d" % i, p, "aldor", q))
     for lib, n, path in corp:
         src = open(path, errors="replace").read()
         for q in LEVELS:
@@ -559,6 +596,11 @@ def run(rep, tier):
                     "oracle": p.get("oracle"), "observed": brief(res)}, key=p.get("key"), group="kept:" + p["name"])
         elif fam == "mini":
             bad_mini.setdefault(p["seed"], (p, q, res, det))
+        elif fam == "hand":
+            report("hand-family program at -Q%d: %s" % (q, det),
+                   {"how_to_replay": "./check C03 --replay <this file>", "src": p["src"], "level": q, "lib": "aldor",
+                    "oracle": p["oracle"], "features": p["features"], "observed": brief(res)},
+                   key=signature_key(res, q), group="hand:" + det[:50])
         elif fam == "end":
             report("ending program (%s in %s%s) at -Q%d: %s" % (p["kind"], p["ctx"],
                    ", code %s" % p["halt"] if p["halt"] is not None else "", q, det),
@@ -569,7 +611,7 @@ def run(rep, tier):
             report("corpus program %s at -Q%d: %s" % (p["corpus"], q, det),
                    {"how_to_replay": "./check C03 --replay <this file>", "corpus": p["corpus"], "lib": lib, "level": q,
                     "observed": brief(res)},
-                   key="corpus:%s:Q%d:%s" % (p["corpus"], q, _route_sig(res)),
+                   key=signature_key(res) or "corpus:%s:Q%d:%s" % (p["corpus"], q, _route_sig(res)),
                    group="corpus:%s:%s" % (p["corpus"], _route_sig(res)))
 
     # the interpreter's stack trace on stdout: one keyed report, with the smallest witness
@@ -581,6 +623,12 @@ def run(rep, tier):
                        "name": jb[1].get("name", "p"), "observed": brief(res)}, key=KEY_TRACE)
 
     # shrink generated programs that disagree
+    for seed in [s for s, (p, q, res, det) in bad_mini.items()
+                 if signature_key(res, q) and rep.finding_key_known(signature_key(res, q))]:
+        p, q, res, det = bad_mini.pop(seed)            # a listed finding met again: reported (once) without shrinking
+        report("generated program (seed %d size %d) at -Q%d: %s" % (p["seed"], p["size"], q, det),
+               {"seed": p["seed"], "size": p["size"], "level": q, "lib": "aldor", "src": p["src"], "observed": brief(res)},
+               key=signature_key(res, q))
     for seed, (p, q, res, det) in list(bad_mini.items())[:3]:
         def still_fails(cand, q=q):
             d = "%s/shr-%d" % (base, next(_uniq))
@@ -616,6 +664,7 @@ def run(rep, tier):
                 samples=[{"tag": j[0], "level": j[3], "verdict": v} for j, r, v, d in results[:12]],
                 input_distribution={
                     "levels": LEVELS, "kept_programs": len(kept), "mini_programs": len(progs), "ending_programs": len(ends),
+                    "hand_programs": len(hands),
                     "corpus_programs": len(corp), "corpus_total": n_corpus_total,
                     "triples": n_cmp, "verdicts": dict(verdicts),
                     "verdicts_per_family": {k: dict(v) for k, v in per_family.items()},
@@ -636,6 +685,8 @@ def run(rep, tier):
         "incomparable (number in input_distribution.verdicts), never as agreeing",
         "stack-trace lines of the interpreter (fintWhere) are removed before stdout is compared ONLY to tell the keyed finding "
         "`%s' from other disagreements; the raw difference is reported under that key" % KEY_TRACE,
+        "hand family (props/c12.py:family_program): integer, boolean, string, list, record, closure programs whose values are tracked "
+        "by the generator; programs that update a record through an alias are not run above -Q3 (keyed finding of C12, an optimiser defect)",
         "ending family: the Python oracle encodes the User Guide's try/catch/finally, assert, never, error and union-branch rules "
         "(aldorug/langtry.tex) for 13 kinds of ending x 4 contexts",
         "translator tools/exitclasses_gen.py: statements it does not know become AOpaque and make the theorems fail "
@@ -644,13 +695,14 @@ def run(rep, tier):
         rep.violation("more than half of the sampled (program, level) pairs were incomparable", dict(verdicts), no_input=True)
 
 
-def signature_key(res, q):
-    """A disagreement whose interpreter output names the place in fint.c that gave up gets a key naming that
-    place and the level (so that the same defect met through another generated program is the same finding)."""
+def signature_key(res, q=None):
+    """A disagreement whose interpreter output names the place in fint.c that gave up (`Bug: fintStmt: Char (..) unimplemented',
+    `Bug: fintEval: RRFmt ..', `Bug: fintEval: undeclared PCall ..') gets a key naming that place, so that the same defect met
+    through another program is the same finding."""
     for r in ("interp", "ao"):
-        m = re.search(r"Bug: (fint\w+): (\w+) \(", res.get(r, {}).get("out", ""))
+        m = re.search(r"Bug: (fint\w+): ([A-Za-z]+(?: [A-Za-z]+)?)", res.get(r, {}).get("out", ""))
         if m:
-            return "interp:%s-%s-unimplemented:Q%d" % (m.group(1), m.group(2), q)
+            return "interp:%s-%s" % (m.group(1), m.group(2).replace(" ", "-"))
     return None
 
 
